@@ -47,7 +47,9 @@ class MPSBackend(EmulatorBackend):
             f"Saving simulation state every {impl.config.autosave_dt} seconds"
         )
 
-        return MPSBackend._run(impl)
+        results = MPSBackend._run(impl)
+        # same un-permutation as _run_from_sequence_data: results list atoms in register order
+        return impl.permute_results(results, impl.config.optimize_qubit_ordering)
 
     def run(self) -> Results:
         """
